@@ -168,3 +168,5 @@ SPEC = dict(contracts=['c20_search.h', 'c20_backref.h', 'c20_section.h'], stubs=
             assumptions=['KERNEL ONLY: the step of the work-list traversal of Source::findSources (what is dequeued, filtered, reported, enqueued with which depth). That the loop runs until the queue is empty and starts from '
                          '{*this, 0} is read off the four remaining lines, not proved; the equivalence with a brute-force traversal of an arbitrary tree (an induction over the tree) is NOT proved; '
                          'Section::findSections / findRelated (std::list of std::tuple), File::findSections, Block::findSources, the back-reference queries and inheritedProperties (lambdas, std::function) are NOT covered'])
+
+SPEC['assumptions'] = list(SPEC.get('assumptions', [])) + ['session 3: Section::findSections units, File::findSections / Block::findSources loop bodies, back-reference queries, inheritedProperties sources - std::list / std::tuple / vectors / filters / containers are ghost records; ASSUMED: the enumeration of a container with a filter returns exactly the entities the filter accepts (getEntities, not under contract); the shadowing merge of inheritedProperties is NOT covered']
